@@ -8,26 +8,31 @@ SPEC = dict(
     harnesses=[dict(name="ice", asan="lib", driver="qxdriver_c15")],
     exhaustive=True,
     rule="Part 1 (correspondence, one line per operation): a real QXmppIceConnection/QXmppIceComponent bound to 127.0.0.1 (no STUN/TURN "
-         "server) is fed explicit operation sequences over {set remote credentials, addRemoteCandidate(addr, prio), connectToHost, "
-         "500-ms check timer tick, transaction time-out, sendDatagram, received datagram}; datagrams come from harness-owned sockets of the "
+         "server) is fed explicit operation sequences over {set remote credentials (both, or remote user only / remote password only), "
+         "addRemoteCandidate(addr, prio), connectToHost, 500-ms check timer tick, single retransmission of a check, transaction time-out, "
+         "sendDatagram, received datagram}; datagrams come from harness-owned sockets of the "
          "honest peer (2 addresses) and of an attacker (2 addresses) and are built with the real QXmppStunMessage encoder from the model's "
          "alphabet {class request/indication/response/error} x {Binding/other} x {integrity-relevant attribute LAYOUT, trailer built by hand in raw bytes: "
          "any order of MESSAGE-INTEGRITY attributes (HMAC valid under the local / remote password, wrong key, length != 20), FINGERPRINT "
          "(right / wrong CRC over the preceding bytes), unknown comprehension-optional attributes and an attribute whose length field "
          "swallows the rest - e.g. FINGERPRINT followed by a MESSAGE-INTEGRITY with garbage or even the right key, two MESSAGE-INTEGRITY "
-         "attributes, MESSAGE-INTEGRITY inside a swallowed attribute; 37 such layouts systematically, random ones in the stream} x USE-CANDIDATE x {no role attribute, "
+         "attributes, MESSAGE-INTEGRITY inside a swallowed attribute, USE-CANDIDATE / PRIORITY placed behind a valid MESSAGE-INTEGRITY (not covered by "
+         "the HMAC) or in front of it; 46 such layouts systematically, random ones in the stream} x USE-CANDIDATE x {no role attribute, "
          "ICE-CONTROLLING, ICE-CONTROLLED} x PRIORITY x USERNAME x {transaction id of the component's latest check, guessed id}, plus "
          "non-STUN payloads. The component's timers are parked and driven explicitly (private slots through the meta-object system), "
          "zero-delay transmissions are flushed behind a marker datagram, so no real time enters. Observation per operation, compared "
          "with the Lean model: decode accepted, warnings (bad / missing integrity, role conflict), Binding responses written (to whom, echoing "
          "which id), connectivity checks sent (to whom, its own k-th transaction, USE-CANDIDATE), 'ICE pair changed to state' lines, "
          "'ICE pair selected ... (priority)' line, connected() signals, isConnected(), datagramReceived payloads, sendDatagram "
-         "destination. Explored: the defect witnesses; EVERY single datagram of a 293-symbol alphabet (460 thorough) from 8 base states "
-         "x both roles; every sequence of length 2 (quick) / 3 (thorough) over a 20-symbol alphabet from 3 base states x both roles; an "
+         "destination. Explored: the defect witnesses; EVERY single datagram of a 338-symbol alphabet (more in thorough) from 11 base states (incl. remote user without password, password without user, password arriving after the check started) "
+         "x both roles; every sequence of length 2 (quick) / 3 (thorough) over a 22-symbol alphabet from 4 (3) base states x both roles; an "
          "attacker datagram inserted at EVERY position of 4 honest negotiations played by the harness; 1500 (8000) seeded random sequences "
          "of 3..14 (3..24) operations, each followed by an unmodelled malformed tail (single-bit flips of authentic messages, STUN-shaped "
          "random attributes, random bytes). A sequence is non-trivial when it yields >= 2 distinct observations. "
-         "Oracle (model independent): any response, check, pair-state change, selection, connected signal or isConnected change after "
+         "TAMPER block (model-independent differential oracle): 144 honest negotiations are run twice on the real component, once with "
+         "attributes (USE-CANDIDATE, PRIORITY, unknown, a second MESSAGE-INTEGRITY) appended behind the valid MESSAGE-INTEGRITY of a genuine "
+         "request or response (FINGERPRINT recomputed) and once without: every observation must coincide. "
+         "Oracle (model independent): a response counts as authenticated only once the remote password has been set; any response, check, pair-state change, selection, connected signal or isConnected change after "
          "a datagram without the valid MESSAGE-INTEGRITY for its class is a failure; advertised candidate priorities, the PRIORITY / "
          "role / USERNAME attributes of its checks and the logged pair priority equal the RFC 5245 formulas computed in the harness. "
          "Part 2 (real timers, oracle only): two real connections, all four role assignments x 1-2 host candidates each (127.0.0.1, "
@@ -73,14 +78,21 @@ SPEC = dict(
                "(forged_history_no_effect, forged_traffic_erasable); only validly authenticated messages can matter "
                "(reaction_only_to_valid_mi); the former two-packet take-over witness is inert (former_takeover_witness_is_inert). "
                "candidate_priority_rfc / advertised_priorities_rfc / pair_priority_rfc over constants regenerated from the source. "
-               "honest_pair_connects_partial + honest_pair_carries_datagrams: two model agents, either role assignment, any component "
-               "and addresses, lossless in-order schedule, both reach connected and carry payloads.",
+               "attributes_after_mi_ignored: whatever is appended behind a MESSAGE-INTEGRITY (USE-CANDIDATE, PRIORITY, further MI, unknown) "
+               "changes nothing; response_before_remote_password_dropped. Liveness: honest_pair_connects_partial (either role assignment, any "
+               "component and addresses, lossless in-order schedule); honest_pair_connects_despite_loss_partial (all 1024 combinations of role "
+               "assignment x start order x triggered-check gap x an extra unreachable candidate per side and its position x loss of any subset of "
+               "the four first transmissions: connected after three retransmission periods, kernel-evaluated) and connected_is_stable (no "
+               "operation ever disconnects); application_datagrams_carried / honest_pair_carries_datagram_lists: arbitrary payload LISTS arrive "
+               "unchanged and in order in both directions.",
     level_note="Proved about the hand-written model; model-to-code tie is differential on a real component over loopback UDP (exhaustive "
                "single datagrams / depth 2-3, interleavings at every point of honest negotiations, sampled beyond). The safety half is "
                "full strength since repo commit f41aa68 (before it, integrity-less messages were processed: findings "
                "C15:binding-request-without-mi-processed / C15:binding-response-without-mi-accepted, now under 'fixed'; both oracle keys "
-               "and the old witness stay in the harness). Liveness is proved for the lossless in-order schedule with one host candidate "
-               "each only; other schedules, several candidates and loss of first transmissions are timer-driven run-time behaviour and "
+               "and the old witness stay in the harness). Liveness is proved for the lossless in-order schedule (all components and addresses) "
+               "and for the schedules in which any subset of FIRST transmissions is lost and every retransmission arrives in order "
+               "(component 1, extra candidates unreachable, kernel-evaluated over all 1024 combinations); arbitrary interleavings, repeated "
+               "loss of the same message, several reachable candidates per agent and real timer behaviour "
                "are explored by the harness (proxy socket dropping every subset of first transmissions; a missed deadline is retried "
                "once with longer deadlines before it counts), not proved. HMAC unforgeability and memory safety are assumptions / "
                "sanitizer exploration.",
